@@ -46,6 +46,13 @@ def h_factory(ctx, kind, cfg, twin=False):
         h.pdu_type == (1 if kind == "filedata" else 0), h.is_file_directive == (kind != "filedata"),
         (h.pdu_directive_type is None) if kind == "filedata" else (h.pdu_directive_type == DIRECTIVE_CODE[kind]),
         h.packet_len == len(raw), h.pack() == raw))
+    # a holder handed out earlier keeps its PDU when the factory decodes another packet of another kind into a holder
+    ok_kind = "prompt" if kind != "prompt" else "ack"
+    h_later = PduFactory.from_raw_to_holder(bytes(build(LenCtx(), ok_kind, (1, 1, 0, 0), VAR[ok_kind]).pdu.pack()))
+    e, r = call(getattr(h, ACCESSORS[kind]))
+    e2, r2 = call(getattr(h, ACCESSORS[ok_kind]))
+    ctx.holds("holder from raw after a later decode into another holder: still its own PDU, accessors of its own kind only",
+              h_later is not h and e is None and isinstance(e2, TypeError) and sym_and(r == b.pdu, h.pack() == raw), exc_name(e or e2))
     for held_name, held in (("constructed", b.pdu), ("decoded", u)):
         holder = PduHolder(held)
         for k2, acc in ACCESSORS.items():
